@@ -34,6 +34,9 @@ PROPS["C14"] = {
          "quick": {"shards": 8, "checks": 20000}, "thorough": {"shards": 16, "checks": 300000, "timeout": 3000}},
         {"name": "C14e", "pkg": "server", "test": "TestVerifC14e",
          "quick": {"shards": 4, "checks": 25}, "thorough": {"shards": 16, "checks": 300, "timeout": 3000}},
+        # Go's native coverage-guided fuzzer over the same differential oracle; thorough tier only, wall-clock bounded
+        {"name": "C14fuzz", "pkg": "server/protocol", "test": "FuzzVerifC14", "kind": "fuzz", "replay_test": "TestVerifC14a",
+         "quick": {"skip": True}, "thorough": {"fuzztime": 240, "timeout": 900}},
     ],
 }
 
@@ -291,17 +294,17 @@ PROPS["C02"] = {
 }
 
 PROPS["C05"] = {
-    "level": {"quick": "exploration", "thorough": "fault_enumeration"},
-    "technique": "fault injection at named crash points (build-tag hooks) in a child process + journal-based Must/May oracle; sampled in quick, enumerated per workload in thorough",
-    "level_text": ("a workload from the C01/C08/C09 operation alphabet (appends that roll, replicated sets, truncations, retention and compaction cleans, HW moves, checkpoints, reopens) runs in a child process that is SIGKILLed by a build-tag hook at a named point between two file-system effects (log write / index write / file create / rename / remove / checkpoint replace); the child journals, before every operation, the state before it and the state predicted after it (obtained from a shadow log driven with the hooks suspended). The parent reopens what the crash left behind and checks: New succeeds; offsets strictly increase; every message equals the journalled one; Must (in both states) is a subset of what is read, which is a subset of May (in either state); HW not above the pre-crash HW; epoch history covers the newest message; and the log stays usable (appends get the next offsets, reopen/truncate/clean keep the contents consistent). quick samples one (point, occurrence) per workload; thorough enumerates every hit of every point for each workload"),
+    "level": "fault_enumeration",
+    "technique": "fault injection at named crash points (build-tag hooks) in a child process + journal-based Must/May oracle; every hit of every crash point enumerated per generated workload (unit C05enum), plus sampled (point, occurrence) pairs over many more workloads (unit C05)",
+    "level_text": ("a workload from the C01/C08/C09 operation alphabet (appends that roll, replicated sets, truncations, retention and compaction cleans, HW moves, checkpoints, reopens) runs in a child process that is SIGKILLed by a build-tag hook at a named point between two file-system effects (log write / index write / file create / rename / remove / checkpoint replace); the child journals, before every operation, the state before it and the state predicted after it (obtained from a shadow log driven with the hooks suspended). The parent reopens what the crash left behind and checks: New succeeds; offsets strictly increase; every message equals the journalled one; Must (in both states) is a subset of what is read, which is a subset of May (in either state); HW not above the pre-crash HW; epoch history covers the newest message; and the log stays usable (appends get the next offsets, reopen/truncate/clean keep the contents consistent). unit C05enum enumerates every hit of every crash point for each of its workloads (quick: 48 workloads, thorough: 1920); unit C05 samples one (point, occurrence) pair per workload over many more workloads"),
     "level_note": "process-crash model (what was written stays; no torn writes, no power loss), crashes only at the 20 instrumented points (hooks listed in MANIFEST.hooks); index entries are written through a shared mmap, which survives SIGKILL like the page cache",
-    "rule": "rapid draws a workload of 3-22 operations, a crash-point hit selector (resolved by a counting run of the same workload) and 1-4 tail operations. Non-trivial = the kill happened inside an operation (not while opening the log). thorough (C05enum): every generated workload x every crash-point hit.",
+    "rule": "rapid draws a workload of 3-22 operations, a crash-point hit selector (resolved by a counting run of the same workload) and 1-4 tail operations. Non-trivial = the kill happened inside an operation (not while opening the log). C05enum: every generated workload x every crash-point hit (counters crash_points_in_workload / crashes).",
     "assumptions": TRUST,
     "units": [
         {"name": "C05", "pkg": "server/commitlog", "test": "TestVerifC05",
-         "quick": {"shards": 16, "checks": 40}, "thorough": {"skip": True}},
+         "quick": {"shards": 16, "checks": 40}, "thorough": {"shards": 16, "checks": 400, "timeout": 3400}},
         {"name": "C05enum", "pkg": "server/commitlog", "test": "TestVerifC05Enum",
-         "quick": {"skip": True}, "thorough": {"shards": 16, "checks": 120, "timeout": 3400}},
+         "quick": {"shards": 16, "checks": 3}, "thorough": {"shards": 16, "checks": 120, "timeout": 3400}},
     ],
 }
 
